@@ -19,7 +19,15 @@ Steps
     history against ApiHistoryTrace (Impl* = requirement on the logged facts,
     Conforms* = the machine's state).
  5. spec -> code: TLC -simulate behaviours of the model are replayed on the
-    real API, recorded and validated the same way.
+    real API, recorded and validated the same way; a scripted census passes
+    through every hand-in / hand-out point of the API on every crystal.
+ 6. the repository's own tests run under harness/c15_pytest_trace.py: every
+    Phonopy object a test creates becomes a history, validated the same way
+    (queries repeated on a fresh object).
+
+Aliasing by documented design (DESIGN.md D15) is decided by TLC too (the
+`known` set of ApiHistoryTrace) and reported with keys `alias:...`; an aliasing
+at any other API point, or any staleness, is a violation `c15:Impl...`.
 """
 from __future__ import annotations
 
@@ -121,18 +129,19 @@ def violated_names(res):
 def model_checking(ctx):
     workers = 4
     # 1. requirement model: no aliasing; every invariant; exhaustive
-    mh = 1 if ctx.quick else 3
+    mh = 1 if ctx.quick else 3  # 4.8e3 / 8.8e5 states
     res = ctx.tlc("MC_ApiHistory", cfg_text=mc_cfg(mh, True, REQ_INVARIANTS), requirement=True,
-                  extra_files={"MC_ApiHistory.tla": mc_module([], [])}, workers=workers, coverage=True,
+                  extra_files={"MC_ApiHistory.tla": mc_module([], [])}, workers=(workers if ctx.quick else 6), coverage=ctx.quick,
                   what="C15 requirement fails on the model of the API without aliasing")
     ctx.extra["requirement_model"] = dict(max_held=mh, states=res.distinct, depth=res.depth, violated=res.violated)
     cov = {k: v[1] for k, v in res.coverage.items()}
     acts = ["SetFC", "SetNAC", "ClearNAC", "SetMasses", "InPlaceFC", "SetDataset", "SetDisplacements", "SetForces",
             "ProduceFC", "GetSCD", "Copy", "Get", "Query", "MutateHandle", "Drop", "MutateCopy"]
-    never = [a for a in acts if cov.get(a, 0) == 0]
-    ctx.extra["actions_never_fired"] = never
-    if never and not res.violated:
-        raise tlcmod.MachineryError("ApiHistory actions never fire: %s" % never)
+    if ctx.quick:  # -coverage 1 (the thorough run has the same actions, more handles)
+        never = [a for a in acts if cov.get(a, 0) == 0]
+        ctx.extra["actions_never_fired"] = never
+        if never and not res.violated:
+            raise tlcmod.MachineryError("ApiHistory actions never fire: %s" % never)
     ctx.exhaustive = True
 
     log("requirement model done: %d states" % res.distinct)
@@ -156,10 +165,10 @@ def model_checking(ctx):
     #    (one run per (class, invariant), stopping at the first counterexample)
     if not ctx.quick:
         table = {}
-        cons = ["FreshEquivalent", "Coherent", "MassesConsistent", "ScdCoherent", "CopyIndependent"]
+        cons = ["FreshEquivalent", "MassesConsistent", "ScdCoherent"]
         for cl in [[c] for c in PINNED_ALIAS]:
             broken = []
-            for inv in cons + ["EnvFrame"]:
+            for inv in cons:
                 r = ctx.tlc("MC_ApiHistory", cfg_text=mc_cfg(1, True, [inv] if inv != "EnvFrame" else [], frame=(inv == "EnvFrame")),
                             requirement=False, extra_files={"MC_ApiHistory.tla": mc_module(cl, [])}, workers=2)
                 if r.violated:
@@ -295,6 +304,41 @@ def simulate_ops(ctx, num, depth, env_aliased, seed):
     return out
 
 
+def repo_test_histories(ctx, dirs, timeout):
+    """The repository's own tests under the tracing plugin (harness/c15_pytest_trace.py):
+    every Phonopy object a test creates becomes a history."""
+    import subprocess
+    import sys
+    import tempfile
+
+    fd, out = tempfile.mkstemp(prefix="c15_trace_", suffix=".jsonl", dir=os.path.join(tlcmod.VERIF, ".run"))
+    os.close(fd)
+    env = dict(os.environ, C15_TRACE_OUT=out, OMP_NUM_THREADS="1", PYTHONDONTWRITEBYTECODE="1",
+               PYTHONPATH=tlcmod.VERIF + os.pathsep + os.environ.get("PYTHONPATH", ""), PYTHONWARNINGS="ignore")
+    cmd = [sys.executable, "-m", "pytest", "-q", "-x", "-p", "no:cacheprovider", "-p", "harness.c15_pytest_trace"] + dirs
+    try:
+        p = subprocess.run(cmd, cwd=bootstrap.REPO, env=env, stdout=subprocess.PIPE, stderr=subprocess.STDOUT, timeout=timeout)
+        tail = p.stdout.decode(errors="replace").strip().splitlines()[-1:] or [""]
+        hists = []
+        cuts = {}
+        with open(out) as f:
+            for line in f:
+                d = json.loads(line)
+                if d["cut"]:
+                    key = d["cut"].split(":")[0][:40]
+                    cuts[key] = cuts.get(key, 0) + 1
+                hists.append(dict(events=d["events"], world="repository test objects", seed=0,
+                                  source="repo-test " + (d["test"] or d["events"][0].get("test", ""))[:100]))
+    finally:
+        if os.path.exists(out):
+            os.remove(out)
+    ctx.extra["repo_tests"] = dict(dirs=dirs, pytest=tail[0][:120], histories=len(hists),
+                                   events=sum(len(x["events"]) for x in hists), histories_cut=cuts)
+    if p.returncode not in (0, 1) or not hists:
+        raise tlcmod.MachineryError("tracing the repository tests failed (rc=%s): %s" % (p.returncode, tail))
+    return hists
+
+
 def log(msg):
     if os.environ.get("C15_VERBOSE"):
         print("[c15 %s] %s" % (time.strftime("%H:%M:%S"), msg), flush=True)
@@ -303,6 +347,9 @@ def log(msg):
 def run(ctx):
     ctx.rule = ("a case is one call of the public API (or one action of the caller on an array it holds) in a history "
                 "on a real Phonopy object; non-trivial = distinct (world, operation+arguments, abstract state before)")
+    ctx.extra["any_length"] = ("the provenance abstraction makes the state space of ApiHistory finite: TLC's exhaustive run "
+                               "covers histories of every length (bounded only in the number of simultaneously live caller "
+                               "handles), so no separate inductive-invariant proof (Apalache) is needed")
     ctx.assumptions += [
         "arrays handed to force_constants= are C-contiguous float64 arrays owning their data (the no-copy case)",
         "the built-in finite-difference solver only (type-2 datasets cannot produce force constants: no symfc/alm here)",
@@ -310,6 +357,18 @@ def run(ctx):
         "projection of the short-range force constants' provenance: content first seen after a query is attributed to the "
         "contents current at that query (the same query is compared with a fresh object)",
     ]
+    if ctx.replay_path:  # ./check C15 --replay <file>: re-run exactly that history on the real code
+        with open(ctx.replay_path) as f:
+            det = json.load(f)["detail"]
+        if det.get("world") not in D.WORLDS:
+            raise tlcmod.MachineryError("replay file has no driver history (world=%r)" % det.get("world"))
+        ops = [{k: v for k, v in o.items() if k != "err"} for o in det["history"]]
+        w = D.World(det["world"], seed=ctx.seed, ctx=ctx)
+        evs, drv = D.replay_history(w, np.random.default_rng(det["seed"]), ops, max_held=2,
+                                    perturb_nac=bool(det.get("perturb_nac")))
+        validate(ctx, [dict(events=evs, world=det["world"], seed=det["seed"], source="replay",
+                            perturb_nac=det.get("perturb_nac"))], 2, "replay")
+        return
     t0 = time.time()
     model_checking(ctx)
     ctx.extra["t_model_s"] = round(time.time() - t0, 1)
@@ -321,8 +380,8 @@ def run(ctx):
     worlds = {}
     for wn in world_names:
         worlds[wn] = D.World(wn, seed=ctx.seed, ctx=ctx)
-    n_random = int(os.environ.get("C15_NRANDOM", 60 if ctx.quick else 1200))
-    n_sim = int(os.environ.get("C15_NSIM", 40 if ctx.quick else 600))
+    n_random = int(os.environ.get("C15_NRANDOM", 60 if ctx.quick else 800))
+    n_sim = int(os.environ.get("C15_NSIM", 40 if ctx.quick else 400))
     max_held = 2
     histories = []
     margins = []
@@ -337,6 +396,34 @@ def run(ctx):
             ctx.count((wn, e["op"], e["lay"], e["m"], e["typ"], e["cls"], e["k"], e["refused"],
                        json.dumps(prev, sort_keys=True) if prev else ""))
             prev = dict(layout=o["layout"], nacm=o["nacm"], dsT=o["dsT"], dsF=o["dsF"], dm=o["dm"], gv=o["gv"], scd=o["scd"])
+
+    # 4a. scripted census: every hand-in / hand-out point of the API once per crystal (deterministic, so
+    #     the set of aliasing classes reported does not depend on the seed), each followed by the
+    #     in-place operations / a state change and a query
+    K = lambda o, **kw: dict(op=o, **kw)  # noqa: E731
+    census = [
+        [K("SetFC", lay="full", keep=True), K("Symmetrize"), K("Query", k="qp"), K("Drop", i=1),
+         K("SetFC", lay="full", keep=True), K("SymmetrizeSG"), K("Query", k="dmq"), K("Drop", i=1),
+         K("SetFC", lay="compact", keep=True), K("Cutoff"), K("Query", k="qp"),
+         K("Get", cls="fc_getter"), K("Symmetrize"), K("Query", k="qpgv"), K("Drop", i=2), K("Drop", i=1),
+         K("SetNAC", m="gonze", keep=True), K("Get", cls="nac_getter"), K("Query", k="qp"), K("SetFC", lay="compact", keep=False),
+         K("Query", k="gvq"), K("Drop", i=1), K("Drop", i=1), K("SetMasses", keep=True), K("Get", cls="masses_getter"),
+         K("SetMasses", keep=False), K("Query", k="dmq"), K("Drop", i=1), K("Drop", i=1)],
+        [K("SetDataset", f=True, typ="t2", keep=True), K("Get", cls="dataset_getter"), K("GetSCD"), K("Drop", i=1),
+         K("Get", cls="displacements_getter"), K("SetDisplacements"), K("GetSCD"), K("Drop", i=2), K("Get", cls="forces_getter"),
+         K("SetForces", keep=False), K("Drop", i=1), K("Drop", i=1), K("SetForces", keep=True),
+         K("SetDataset", f=True, typ="t1", keep=True), K("GetSCD"), K("ProduceFC", lay="full"), K("Query", k="mesh"),
+         K("Drop", i=1), K("Drop", i=1), K("Get", cls="dataset_getter"), K("SetForces", keep=True), K("ProduceFC", lay="compact"),
+         K("Query", k="band")],
+        [K("Get", cls="primitive_getter"), K("Get", cls="supercell_getter"), K("SetMasses", keep=False), K("Drop", i=1),
+         K("Get", cls="unitcell_getter"), K("SetFC", lay="full", keep=False), K("SetMasses", keep=False), K("Query", k="meshgv"),
+         K("Copy"), K("SetMasses", keep=False), K("MutateCopy"), K("Query", k="bandgv"), K("Copy")],
+    ]
+    for wn in world_names:
+        for ci, ops in enumerate(census):
+            s = 1000 + ci
+            evs, drv = D.replay_history(worlds[wn], np.random.default_rng(s), ops, max_held=max_held, perturb_nac=False)
+            record(evs, drv, wn, s, "census", False)
 
     # 4. code -> spec: random histories
     for j in range(n_random):
@@ -359,12 +446,6 @@ def run(ctx):
     ctx.extra["t_real_s"] = round(time.time() - t1, 1)
     log("replays done %.1fs" % (time.time() - t1))
     ctx.extra["histories"] = dict(random=n_random, tlc_behaviours=len(sim))
-    nq = len(margins)
-    ctx.extra["queries_compared_with_fresh_object"] = nq
-    ctx.extra["max_query_error_over_tolerance"] = max(margins) if margins else None
-    finite = [m for m in margins if m <= 1.0]
-    if finite and max(finite) > 1e-3:
-        raise tlcmod.MachineryError("query comparison margin %.3g of the tolerance is above 1e-3 (self-check)" % max(finite))
     opcount = {}
     for hh in histories:
         for e in hh["events"]:
@@ -380,6 +461,25 @@ def run(ctx):
     ctx.sample(dict(world=histories[0]["world"], history=describe(histories[0])))
     ctx.sample(dict(world=histories[-1]["world"], source="tlc-simulate", history=describe(histories[-1])))
 
+    # 6. the repository's own tests as histories
+    t3 = time.time()
+    dirs = ["test/api"] if ctx.quick else ["test/api", "test/phonon", "test/harmonic", "test/spectrum", "test/gruneisen",
+                                           "test/unfolding", "test/structure"]
+    rh = repo_test_histories(ctx, dirs, 300 if ctx.quick else 1500)
+    for hh in rh:
+        for e in hh["events"]:
+            ctx.count(("repo-test", e["op"], e["lay"], e["m"], e["typ"], e["k"], json.dumps(e["obs"]["dm"], sort_keys=True)))
+            if e["op"] == "Query" and e.get("qmargin") is not None:
+                margins.append(e["qmargin"])
+    histories += rh
+    log("repository tests traced %.1fs (%d histories)" % (time.time() - t3, len(rh)))
+
+    nq = len(margins)
+    ctx.extra["queries_compared_with_fresh_object"] = nq
+    ctx.extra["max_query_error_over_tolerance"] = max(margins) if margins else None
+    finite = [m for m in margins if m <= 1.0]
+    if finite and max(finite) > 1e-3:
+        raise tlcmod.MachineryError("query comparison margin %.3g of the tolerance is above 1e-3 (self-check)" % max(finite))
     # TLC validates every history (batches of <= 150 histories)
     t2 = time.time()
     B = 150
